@@ -1,5 +1,46 @@
 """Claimed checks -> MANIFEST.json (bin/mkmanifest).  One entry per property that has a validated check."""
 CHECKS = {
+    'C08': dict(
+        category='other',
+        text='Table and sibling agreement for the JWK importer: which member feeds which provider parameter is extracted from the '
+             'importer\'s paths and compared with RFC 7518 6.3 / RFC 8037 and, as inverse, with the exporter in tools/key2jwk.c; every '
+             'decoded buffer is consumed with the length produced by decoding that same buffer; each importer reads only member names of '
+             'its own key type; key_ops/use maps, oct bits = 8 x length, private detection, curve names.',
+        design_ref='DESIGN.md section 3 C08',
+        note='NOT decided: equality of the key numbers and the PEM round trip (numeric, inside OpenSSL).',
+        technique='table extraction and sibling cross-check from abstract-interpreter paths and the AST',
+    ),
+    'C11': dict(
+        category='other',
+        text='Necessary structural conditions of the codec: the two tables are the RFC 4648 alphabet and its inverse; the per-byte decision '
+             'of base64_decode for all 256 byte values (alphabet symbol -> its sextet, anything else rejected, table index always inside '
+             'the table); length gate and URL alphabet translation in both directions; size macros (compile-fail witness batch) and '
+             'allocation sizes against bytes written for every length in range.',
+        design_ref='DESIGN.md section 3 C11',
+        note='NOT decided: decode(encode(x)) == x over whole strings and in-loop buffer bounds - that would be executing the codec over its '
+             'domain, not analysis. The claim is the structural part only.',
+        technique='table agreement, exhaustive per-symbol decision table, expression evaluation over ranges, _Static_assert witnesses',
+    ),
+    'C12': dict(
+        category='other',
+        text='Sibling agreement of the provider ops tables (fully populated, unique, shared JWK import/free routines), per-algorithm '
+             'hash/padding/salt selection of each provider\'s signer against RFC 7518 (verifiers: C01), the verdict gate per provider, and '
+             'jwt_set_crypto_ops/_t/jwt_init evaluated concretely on the provider names, ids and 18 near misses: a provider is selected only '
+             'on an exact name/id and nothing is stored otherwise.',
+        design_ref='DESIGN.md section 3 C12',
+        note='NOT decided: byte-identical tokens and cross-acceptance of signatures (runtime crypto).',
+        technique='sibling/table agreement + concrete decision tables by abstract interpretation',
+    ),
+    'C20': dict(
+        category='other',
+        text='For the four tools: agreement of long-option table, short option string, dispatch switch and usage text; jwt-verify\'s exit '
+             'expression is 0 exactly for a zero failure count and never wraps modulo 256, the counter being the number of failed '
+             'process_one calls; key2jwk writes EC x/y/d with a minimum width of ceil(bits/8) octets; jwk2key writes the item\'s own '
+             'PEM/octets.',
+        design_ref='DESIGN.md section 3 C20',
+        note='NOT decided: behaviour of the built binaries (process level).',
+        technique='table agreement over the AST + expression evaluation + provenance by abstract interpretation',
+    ),
     'C06': dict(
         category='other',
         text='Structural clauses for every token string: nullness, uninitialised-local and ownership typestate rules (leak, wrong-family, '
